@@ -262,6 +262,18 @@ func (e *Env) evalLazy(x Expr) EVal {
 			return EVal{T: And(out...)}
 		}
 		sk := e.skolem(x.Var, x.Sort)
+		// facts assumed for all values (requires, loop invariants) hold at this index too
+		if e.st != nil {
+			for _, un := range e.st.Universals {
+				if un.sort == sk.T.Sort {
+					key := "uninst:" + sk.T.String() + ":" + fmt.Sprint(len(e.st.PC))
+					_ = key
+					if f, good := un.inst(sk.T); good {
+						e.st.Assume(f)
+					}
+				}
+			}
+		}
 		return e.with(map[string]EVal{x.Var: sk}).eval(x.Body)
 	}
 	efail("unsupported expression %T", x)
@@ -792,7 +804,20 @@ func (e *Env) call(x ECall) EVal {
 			ev := e.st.Calls[i]
 			for _, d := range ev.Desigs {
 				if d == name && ev.Havoc {
-					efail("lastresult(%s): the last call may have happened in a loop that was cut here; state the fact in the loop invariant instead", name)
+					// the last call may have happened in a loop that was cut here: its result
+					// is unknown (a fresh value of the right sort)
+					for j := i - 1; j >= 0; j-- {
+						for _, d2 := range e.st.Calls[j].Desigs {
+							if d2 == name && !e.st.Calls[j].Havoc && idx < len(e.st.Calls[j].Res) {
+								var ty types.Type
+								if idx < len(e.st.Calls[j].ResTys) {
+									ty = e.st.Calls[j].ResTys[idx]
+								}
+								return EVal{T: u.Fresh("unknown_lastresult", e.st.Calls[j].Res[idx].Sort), Ty: ty}
+							}
+						}
+					}
+					return EVal{T: u.Fresh("unknown_lastresult", SV)}
 				}
 				if d == name {
 					if idx < len(ev.Res) {
